@@ -204,11 +204,47 @@ def header_cases(rng, quick):
                 #  `unsupported` in the model; not generated here)
                 er[base if base not in ("", "jr") else "foo"] = "u"
             yield "header-grouped-unknown", mk_form(rows0, [er])
+    for g in GROUPED_KNOWN:
+        col = SPEC_ENT_ALIASES.get("_".join(g.split("::" if "::" in g else ":")[0].split()).lower(), None) or \
+            "_".join(g.split("::" if "::" in g else ":")[0].split()).lower()
+        for combo in combos:
+            er = entity_row(rng, combo)
+            er.pop(col, None)
+            er[g] = "trees" if col == "dataset" else "'v'"
+            yield "header-grouped-column", mk_form(rows0, [er])
     for a, b in ((" foo ", "foo"), ("foo", " foo "), ("Foo", "foo"), ("why", "why ")):
         er = entity_row(rng, (0, 0, 0, 1))
         er[a] = "1"
         er[b] = "2"
         yield "header-unknown-padded", mk_form(rows0, [er])
+
+
+# headers with a delimiter whose first token IS an entities column: the cell becomes a dict (known finding)
+GROUPED_KNOWN = ["label:en", "label::en", "Label : en", "entity_id:x", "create_if::a", "update_if : b", "dataset:x",
+                 "list_name::x", "dataset::a::b"]
+
+
+def grouped_known_headers(ents, cols=None):
+    out = []
+    for h in impl.headers_of(ents or [], cols):
+        if ":" not in h:
+            continue
+        n = "_".join(h.split("::" if "::" in h else ":")[0].split()).lower()
+        if SPEC_ENT_ALIASES.get(n, n) in SPEC_ENT_COLS:
+            out.append(h)
+    return out
+
+
+def match_grouped_column(f: Failure) -> bool:
+    """the failure is a crash / a Python dict repr in the declaration, on a sheet with a grouped entities column"""
+    if f.kind not in ("crash-on-header", "dict-valued-cell"):
+        return False
+    form = f.case.get("form", {})
+    if not grouped_known_headers(form.get("entities"), form.get("entities_cols")):
+        return False
+    if f.kind == "crash-on-header":
+        return "'dict' object has no attribute" in f.detail
+    return True
 
 
 def header_shape_special(ents, cols=None):
@@ -601,7 +637,7 @@ def entities_version():
 # ----------------------------------------------------------------------------- known findings
 
 # F25 (save_to on `select_one age_group` rejected by a substring test) is repaired in the tree: no open finding.
-MATCHERS = {}
+MATCHERS = {"C19-grouped-entities-column": lambda f: match_grouped_column(f)}
 
 
 # ----------------------------------------------------------------------------- one case
@@ -661,6 +697,11 @@ def form_case(ctx, label, form):
     # ---- oracle: the documented table, on the implementation's output
     if special:
         ctx.count("spec-not-applicable:header-shape")
+        if r["ok"] and obs is not None:
+            vals = [v for n in ([obs["entity"]] if obs["entity"] else []) + obs["nodes"] for _, v in n["attrs"]]
+            if any("{'" in v for v in vals):
+                ctx.fail(Failure("dict-valued-cell", "a Python dict repr was written into the entity declaration: "
+                                 + str([v for v in vals if "{'" in v][:2]), case))
         if r["class"] == "internal":
             ctx.fail(Failure("crash-on-header", "internal exception on an entities sheet with grouped / duplicate headers: "
                              + r["msg"][:200], case, extra={"impl_msg": r["msg"], "site": r.get("site")}))
